@@ -83,6 +83,13 @@ func vnetGen(r *vu.Rng, i int, prop int) []string {
 	delay := []int{0, 2, 20, 120}[r.Intn(4)]
 	ops := []string{fmt.Sprintf("scn net %d %d %d %d %d %d %d %d %d %d %d", r.Uint64()>>1, drop, dup, delay, r.Range(30, 200),
 		pick(), pick(), pick()*2, pick(), pick(), pick()*2)}
+	// some cases script a lossy handshake instead: the server's first handshake flights are lost (the
+	// client keeps probing, its PTO back-off grows), then the client's Finished and the 1-RTT data
+	// sent right behind it are lost; afterwards the network is perfect and default timeouts apply
+	scripted := r.Chance(1, 8)
+	if scripted {
+		ops = append(ops, fmt.Sprintf("scn hsdrop %d %d %d", r.Intn(6), r.Intn(3), r.Intn(4)))
+	}
 	n := r.Range(1, 5)
 	for k := 0; k < n; k++ {
 		total := []int{0, 1, 100, 1200, 3000, 9000, 30000}[r.Intn(7)]
@@ -106,7 +113,11 @@ func vnetGen(r *vu.Rng, i int, prop int) []string {
 		// keep the number of API events per stream bounded (~150 writes / reads)
 		chunk := max([]int{1, 50, 700, 1173, 1174, 4000, 10000}[r.Intn(7)], total/150)
 		readSize := max([]int{1, 10, 512, 4096, 10000}[r.Intn(5)], total/150)
-		ops = append(ops, fmt.Sprintf("scn stream %d %s %d %d %d %s %d %d %d", r.Intn(2), typ, total,
+		side := r.Intn(2)
+		if scripted {
+			side = 0 // the server conn exists only after the delayed handshake
+		}
+		ops = append(ops, fmt.Sprintf("scn stream %d %s %d %d %d %s %d %d %d", side, typ, total,
 			chunk, r.Intn(3), end, resetAfter, readSize, readerStop))
 	}
 	return ops
